@@ -2606,7 +2606,9 @@ def c_decomposition(L, rule):
             L.extra.setdefault("decomposition_state", {})["time->" + fld] = \
                 "reads %s, kept between calls: %s judges the first call (static initialisers), C19.R4 the call sequences" % (
                     ", ".join(sorted({root_name(x[1]) for x in subterms(raw) if x[0] == "v"} & set(kept))), rule)
-        comp[fld] = euclid(renorm(cold_start(raw, tu, kept), ren))
+        # the property quantifies over FN in 0..2715647: arms no frame number of that domain can take (a fold of an
+        # out-of-range argument back into the hyperframe, a defensive clamp) are decided by intervals and dropped
+        comp[fld] = euclid(prune(renorm(cold_start(raw, tu, kept), ren), {V("FN"): (0, HYPERFRAME - 1)}))
     # C division / remainder: floor semantics need a non-negative dividend that does not wrap
     rng = {fnname: (0, HYPERFRAME - 1), "%s->fn" % tname: (0, HYPERFRAME - 1)}
     ndiv = 0
